@@ -26,7 +26,7 @@ RuleZones ==
      Z(630, 660, 10, 1, 0, 7200, 4, 1, 0, 7200),        \* LHST-10:30LHDT-11,M10.1.0,M4.1.0    (half-hour shift)
      Z(-210, -150, 3, 2, 0, 60, 11, 1, 0, 60),          \* NST3:30NDT,M3.2.0/0:01,M11.1.0/0:01 (negative half hour)
      Z(765, 825, 9, 5, 0, 9900, 4, 1, 0, 13500)}        \* <+1245>-12:45<+1345>,M9.5.0/2:45,M4.1.0/3:45
-FixedZones == {Z(90, 90, 3, 1, 0, 0, 10, 1, 0, 0), Z(-480, -480, 3, 1, 0, 0, 10, 1, 0, 0)}
+FixedZones == {Z(90, 90, 3, 1, 0, 0, 10, 1, 0, 0)} \cup (IF Thorough \/ OnlyFixed THEN {Z(-480, -480, 3, 1, 0, 0, 10, 1, 0, 0)} ELSE {})
 
 Zones == IF OnlyFixed THEN FixedZones ELSE RuleZones \cup FixedZones
 
@@ -35,8 +35,9 @@ Years == IF Thorough THEN {1970, 2024} ELSE {2024}
 \* instants around both clock changes of each year, and mid-winter / mid-summer
 Cand(z) ==
     UNION {LET s == ZoneStart(z, y)   e == ZoneEnd(z, y)
-           IN {AddSec(s, -1), s, AddSec(s, 3600), AddSec(e, -1), e,
+           IN {AddSec(s, -1), s, AddSec(e, -1), e,
                [day |-> DaysFromCivil(y, 1, 15), sod |-> 43200], [day |-> DaysFromCivil(y, 7, 15), sod |-> 43200]}
+              \cup (IF Thorough THEN {AddSec(s, 3600), AddSec(e, 3600)} ELSE {})
            : y \in Years}
 
 Init == zone \in Zones /\ hist = <<>> /\ cache = <<>> /\ out = <<>>
@@ -63,7 +64,9 @@ HistoryFree == hist # <<>> => out = ImplLocal(zone, Cur, <<>>, Dev_cache).out
 
 \* the rule evaluation itself: clocks change exactly at ZoneStart / ZoneEnd, the wall clock jumps from the rule's
 \* time to that time plus the shift, and both offsets occur among the candidates of a rule zone
+\* (a property of the zone alone: judged in the initial state of each zone)
 ZoneSane ==
+    hist = <<>> =>
     /\ \A i \in Cand(zone) : ZoneOffset(zone, i) \in {zone.std, zone.dst} /\ InDomain(i, ZoneOffset(zone, i))
     /\ zone.std # zone.dst =>
           \A y \in Years :
